@@ -23,6 +23,13 @@ pub fn nest(kind: i64, d: usize, catch_each: bool) -> String {
 
 pub const PROCS: &str = "proc down {n} {if {$n <= 0} {rec deep; return ok}; down [expr {$n - 1}]}\nproc ping {n} {if {$n <= 0} {rec deep; return ok}; pong [expr {$n - 1}]}\nproc pong {n} {ping $n}";
 
+pub const HISTORIES: [&str; 4] = [
+    "",
+    "\ncatch {if 1 \"set x \\{\"}\ncatch {if 1 {if 1 \"set x \\{\"}}\ncatch {foreach i 1 {expr {[}}}\nset h ok",
+    "\nproc inf {} {inf}\ncatch {inf}\ncatch {if 1 {inf}}\nset h ok",
+    "\nproc wa {a} {}\ncatch {if 1 {wa}}\ncatch {wa 1 2}\nset h ok",
+];
+
 pub fn gen(tier: &str, seed: u64) -> Gen {
     let mut rng = Rng::new(seed);
     let mut cases = Vec::new();
@@ -43,14 +50,14 @@ pub fn gen(tier: &str, seed: u64) -> Gen {
                     if target < 1 {
                         continue;
                     }
-                    let c = tl(vec![ti(n), ti(kind), ti(target), tb(catch_each), ti(rng.below(3) as i64 + 1)]);
+                    let c = tl(vec![ti(n), ti(kind), ti(target), tb(catch_each), ti(rng.below(3) as i64 + 1), ti(rng.below(4) as i64)]);
                     cases.push(c);
                 }
             }
         }
     }
     let n = cases.len();
-    (cases, vec![(format!("{} limits x 6 constructs x depths N-1,N,N+1,10N x catch-at-each-level or not, repeated 1-3 times", limits.len()), n, thorough)])
+    (cases, vec![(format!("{} limits x 6 constructs x depths N-1,N,N+1,10N x catch-at-each-level or not, repeated 1-3 times, after one of 4 histories of caught failures (none, unparsable bodies, runaway recursion, wrong argument counts)", limits.len()), n, thorough)])
 }
 
 /// script needing exactly `target` nested evaluation levels (or the closest the construct allows)
@@ -81,7 +88,10 @@ pub fn run(c: &Term) -> Term {
     let catch_each = c.nth(3).as_int() == 1;
     let reps = c.nth(4).as_int() as usize;
     let (script, _need) = script_for(kind, target, catch_each);
-    let mut scripts: Vec<String> = vec![PROCS.to_string()];
+    // earlier failures on the same interpreter (all caught): bodies that do not parse, runaway
+    // recursion stopped by the limit, a procedure called with the wrong number of arguments
+    let history = HISTORIES[c.nth(5).as_int() as usize];
+    let mut scripts: Vec<String> = vec![format!("{}{}", PROCS, history)];
     for _ in 0..reps {
         scripts.push(script.clone());
         scripts.push(format!("catch {{{}}} msg; set msg", script));
